@@ -185,7 +185,9 @@ var yamlWords = []string{"true", "yes", "on", "y", "n", "no", "off", "null", "~"
 // c02Phrases: multi-character strings that a text-level post-processing step can mistake for something else:
 // spelled-out escapes, printf verbs, the six-character spellings of every JSON escape, a line of more than 64 KiB.
 var c02Phrases = []string{"\\u003c", "a \\u003cb\\u003e \\u0026", "\\u0026amp;", "\\n", "\\\\", "\\u0000", "\\\"", "50%", "100%d done %s", "%!f(MISSING)", "%%", "%v%s%d", "&lt;", "&amp;",
-	"http://example.com/a/b?x=1&y=2", strings.Repeat("z", 70000)}
+	"http://example.com/a/b?x=1&y=2", strings.Repeat("z", 70000),
+	// the same text in composed and decomposed form, compatibility characters, bidi and zero-width characters
+	"\u00e9", "e\u0301", "\u00c5", "A\u030a", "\u212b", "\ufb01", "fi", "\u1e9b\u0323", "\u200b", "a\u200db", "\u202eabc", "\U0001F468\u200d\U0001F469\u200d\U0001F467"}
 
 func c02Strings(tier string) []string {
 	var out []string
